@@ -213,10 +213,10 @@ def wrappers(ctx, prog):
     for n in ("find_skip", "find_keep", "rfind_skip", "rfind_keep"):
         rows.append((M + "bytes_" + n, M + "__bytes_" + n, "same"))
         rows.append((S + n, M + "__bytes_" + n, "opt_str"))
-    opaque = {M + x for x in FAMILY} | {"konst_kernel::string::__from_u8_subslice_of_str"} | CHAR_OPAQUE
-    # __bytes_rcontain re-enters the public generic bytes_rfind with P = [u8]; its body is a row of its own
-    rows = [(fn, (M + "bytes_rfind" if fn == M + "bytes_rcontain" else callee), kind) for fn, callee, kind in rows]
-    opaque.add(M + "bytes_rfind")
+    # the loop-free `__bytes_contain`/`__bytes_rcontain` helpers are looked into; a wrapper may reach the matcher `__bytes_X` directly
+    # or through the public generic `bytes_X` (whose own row shows it is `__bytes_X`; `__bytes_rcontain` re-enters it with P = [u8])
+    opaque = {M + x for x in FAMILY if x not in ("__bytes_contain", "__bytes_rcontain")} | {"konst_kernel::string::__from_u8_subslice_of_str"} | CHAR_OPAQUE
+    opaque |= {M + "bytes_find", M + "bytes_rfind"}
     for fn, callee, kind in rows:
         b = ctx.anchor(prog, fn)
         if b is None:
@@ -234,7 +234,7 @@ def wrappers(ctx, prog):
             if path.kind != "return":
                 continue
             n += 1
-            final = [c for c in single_call([path]) if c[1] == callee]
+            final = [c for c in single_call([path]) if c[1] in (callee, callee.replace("__bytes_", "bytes_"))]
             if len(final) != 1:
                 msg = "expected exactly one call to %s on every path" % callee.split("::")[-1]
                 break
